@@ -155,6 +155,8 @@ class OpaqueEC(object):
             return SInt(r)
         self._old_hook = models.INVERSE_HOOK
         models.INVERSE_HOOK = inv_hook
+        self._old_nl = getattr(ctx(), "nl_uf", False)
+        ctx().nl_uf = True
         return self
 
     def __exit__(self, *a):
@@ -168,6 +170,8 @@ class OpaqueEC(object):
                 setattr(obj, name, old)
         self.saved = []
         models.INVERSE_HOOK = self._old_hook
+        if core.CUR is not None:
+            core.CUR.nl_uf = self._old_nl
         return False
 
 
@@ -181,5 +185,7 @@ STUBS = [
     "CurveFp.contains_point(x,y) with symbolic x,y: uninterpreted predicate OnCurve(x,y)",
     "square_root_mod_prime(a,p) with symbolic a: SquareRootError iff not IsQR(a), else "
     "uninterpreted root in [0,p) (contract: C15)",
+    "products of two symbolic integers inside the opaque-EC region (curve equation, alpha = "
+    "x^3+ax+b): an uninterpreted function MUL(a,b) (the byte layer does not depend on them)",
     "pow(a,-1,m) with symbolic a: uninterpreted Inv(a,m) in [0,m) if a % m != 0 else ValueError",
 ]
